@@ -105,6 +105,7 @@ type SimNode struct {
 	peersAtLeave    []*peers.Peer
 	constructing    bool
 	isObserver      bool
+	lagCounted      map[int]bool
 	explicitSuspend bool
 	ownScanned      int
 	ownPayload      map[string]int
@@ -132,6 +133,13 @@ type task struct {
 	via  *SimNode
 	done bool
 	err  error
+
+	gate     chan struct{}
+	parked   bool
+	aborted  bool
+	resumeAt int
+	epoch    int
+	plan     map[string]int
 }
 
 // Cluster is one simulated network.
@@ -187,6 +195,8 @@ type Cluster struct {
 	byzHandler      func(s *Step)
 	byzGen          func(g *genState) *Step
 	observer        *SimNode
+	curTask         *task
+	taskHarnessErr  *harnessError
 	instSeq         int
 	emitted         map[string]string
 	emitScanned     int
@@ -413,6 +423,9 @@ func (c *Cluster) policyAccept(itx *hg.InternalTransaction) bool {
 
 func (c *Cluster) violate(prop, oracle, key, format string, args ...interface{}) {
 	v := &Violation{Property: prop, Oracle: oracle, Key: key, Message: fmt.Sprintf(format, args...), Step: c.stepNo}
+	if prop == "C13" {
+		c.classifyC13(v)
+	}
 	c.violations = append(c.violations, v)
 }
 
@@ -479,6 +492,14 @@ func (c *Cluster) runWakeups() {
 
 func (c *Cluster) cleanup() {
 	// let every outstanding timeout expire, then shut nodes down
+	for _, t := range c.tasks {
+		if t.parked && !t.done {
+			t.aborted = true
+			t.parked = false
+			t.gate <- struct{}{}
+			synctest.Wait()
+		}
+	}
 	c.wakeups = nil
 	for _, n := range c.nodes {
 		if n.running() {
